@@ -6,6 +6,7 @@ import (
 	"sync/atomic"
 	"time"
 
+	"github.com/semihalev/sdns/internal/verifhook"
 	"golang.org/x/sync/singleflight"
 )
 
@@ -87,6 +88,9 @@ func (w *SingleflightWrapper) Forget(key string) {
 
 // cleanupLoop periodically cleans up stuck queries.
 func (w *SingleflightWrapper) cleanupLoop() {
+	if !verifhook.Background() {
+		return
+	}
 	ticker := time.NewTicker(30 * time.Second)
 	defer ticker.Stop()
 
